@@ -36,7 +36,7 @@ _CAP = {"calls": [], "installed": False, "hits": 0}
 def lanes(tier):
     if tier == "quick":
         return [("plain", "plain", 96)]
-    return [("plain", "plain", 1600), ("san", "san", 160)]
+    return [("plain", "plain", 3200), ("san", "san", 320)]
 
 
 def _install():
